@@ -10,11 +10,11 @@ from extract import *
 
 NAME = "Sse2Score"
 
-HEX = r"(0x[0-9a-fA-F]+|\d+)"
+HEX = r"(0x[0-9a-fA-F_]+|\d[\d_]*)"
 
 
 def num(tok):
-    tok = tok.strip()
+    tok = tok.strip().replace("_", "")
     return int(tok, 16) if tok.lower().startswith("0x") else int(tok)
 
 
